@@ -50,6 +50,7 @@ type ReqParams struct {
 	Queries     int    `json:"queries"`
 	E2e         int    `json:"e2e"`
 	SkipPrivate bool   `json:"skip_private,omitempty"`
+	BoolStyle   string `json:"bool_style,omitempty"` // HTTP only: "" true/false | digit | letter | LETTER | UPPER | Title
 	// Omit (HTTP only): query keys left out of the request; the fields above then hold the documented defaults
 	Omit []string `json:"omit,omitempty"`
 	// Repeat (HTTP only): query keys that appear twice, with the same value
@@ -83,6 +84,26 @@ func (p ReqParams) ToQuery() string {
 		}
 		return s
 	}
+	// BoolStyle: the other spellings of a boolean the handler's parser (strconv.ParseBool) takes
+	boolean := func(v bool) string {
+		i := 0
+		if v {
+			i = 1
+		}
+		switch p.BoolStyle {
+		case "digit":
+			return [2]string{"0", "1"}[i]
+		case "letter":
+			return [2]string{"f", "t"}[i]
+		case "LETTER":
+			return [2]string{"F", "T"}[i]
+		case "UPPER":
+			return [2]string{"FALSE", "TRUE"}[i]
+		case "Title":
+			return [2]string{"False", "True"}[i]
+		}
+		return strconv.FormatBool(v)
+	}
 	q := url.Values{}
 	q.Set("target", p.Hostname)
 	q.Set("port", num(p.Port))
@@ -92,10 +113,10 @@ func (p ReqParams) ToQuery() string {
 	q.Set("tcp-method", p.TCPMethod)
 	q.Set("traceroute-queries", num(p.Queries))
 	q.Set("e2e-queries", num(p.E2e))
-	q.Set("ipv6", strconv.FormatBool(p.WantV6))
-	q.Set("reverse-dns", strconv.FormatBool(p.ReverseDns))
-	q.Set("source-public-ip", strconv.FormatBool(p.PublicIP))
-	q.Set("skip-private-hops", strconv.FormatBool(p.SkipPrivate))
+	q.Set("ipv6", boolean(p.WantV6))
+	q.Set("reverse-dns", boolean(p.ReverseDns))
+	q.Set("source-public-ip", boolean(p.PublicIP))
+	q.Set("skip-private-hops", boolean(p.SkipPrivate))
 	for _, k := range p.Omit {
 		q.Del(k)
 	}
